@@ -4,6 +4,7 @@ import (
 	"bytes"
 	"fmt"
 	"math"
+	"sync"
 )
 
 // https://github.com/golang/net/blob/5a444b4f2fe893ea00f0376da46aa5376c3f3e28/http2/http2.go#L112-L119
@@ -27,6 +28,10 @@ type HeaderField struct {
 }
 
 type HTTP2FingerprintingFrames struct {
+	// mu guards the fields below: the HTTP/2 serve loop records frames
+	// while request handlers of the same connection marshal them
+	mu sync.Mutex
+
 	// Data from SETTINGS frame
 	Settings []Setting
 
@@ -40,12 +45,23 @@ type HTTP2FingerprintingFrames struct {
 	Headers []HeaderField
 }
 
+// Update runs fn with exclusive access to the recorded frames, so that a
+// concurrent Marshal sees the state before or after fn, never in between.
+func (f *HTTP2FingerprintingFrames) Update(fn func(*HTTP2FingerprintingFrames)) {
+	f.mu.Lock()
+	defer f.mu.Unlock()
+	fn(f)
+}
+
 func (f *HTTP2FingerprintingFrames) String() string {
 	return f.Marshal(math.MaxUint)
 }
 
 // TODO: add tests
 func (f *HTTP2FingerprintingFrames) Marshal(maxPriorityFrames uint) string {
+	f.mu.Lock()
+	defer f.mu.Unlock()
+
 	var buf bytes.Buffer
 
 	// SETTINGS frame
